@@ -915,6 +915,34 @@ func (x *Exec) evalCall(env *Env, c *Clause, e *Expr) (SymVal, types.Type) {
 			return pv, a.Type()
 		}
 		return Zero, a.Type()
+	case "fieldaddr":
+		// fieldaddr(a, p, "f"): the value bound to the name a (a hook argument) is exactly the address &p.f
+		need(3)
+		if e.Args[0].Kind != "ident" {
+			x.specFail(c, "fieldaddr needs a bound name first")
+		}
+		v, _ := x.lookupIdent(env, c, e.Args[0].Op)
+		ad, ok := v.(*Addr)
+		pv, pt := x.eval(env, c, e.Args[1])
+		pterm, isT := pv.(Term)
+		st := derefType(pt)
+		if !isT || st == nil || !isStruct(st) {
+			x.specFail(c, "fieldaddr: second argument must be a pointer to a struct")
+		}
+		si := x.D.StructInfo(st)
+		want := ""
+		for i, f := range si.fields {
+			if f.name == e.Args[2].Lit {
+				want, _ = x.fieldHeapKey(st, i)
+			}
+		}
+		if want == "" {
+			x.specFail(c, "fieldaddr: no field %s", e.Args[2].Lit)
+		}
+		if !ok || ad.Kind != aField || ad.Key != want || len(ad.Path) != 0 {
+			return False, boolT
+		}
+		return Eq(ad.Ref, pterm), boolT
 	case "heldobj":
 		need(1)
 		t := argT(0)
